@@ -53,11 +53,31 @@ Theorem C05_field_value : forall kvs name, kvs_ok kvs -> fields_value (enc_field
 Proof. exact fields_value_spec. Qed.
 Print Assumptions C05_field_value.
 
-(* Rejection. Full statement: an expression with a condition the server cannot evaluate is refused. *)
-Definition C05_reject_statement (pmatch : bytes -> bytes -> option bool) (to_upper to_lower : bytes -> bytes)
-  (parse_time : bytes -> option Z) : Prop :=
-  forall e, all_conds_expr (evaluable_cond pmatch to_upper to_lower parse_time) e = false ->
-            build_where pmatch to_upper to_lower parse_time (Some e) = None.
+(* Rejection. Full statement: an expression with a condition the server cannot evaluate (unknown operand, function
+   other than UPPER/LOWER or with other than one parameter, an operator the operand does not support, an
+   unparseable time literal, a LIKE pattern path.Match rejects) is refused, wherever the condition stands.
+   `build` is the builder the statement is about. *)
+Definition C05_reject_statement (build : option expr -> option wef)
+  (pmatch : bytes -> bytes -> option bool) (to_upper to_lower : bytes -> bytes) (parse_time : bytes -> option Z) : Prop :=
+  forall e, all_conds_expr (evaluable_cond pmatch to_upper to_lower parse_time) e = false -> build (Some e) = None.
+
+(* Proved for the code (build_where = the builders at [code_like_shadow], i.e. `_, err = path.Match(..)` in the LIKE
+   cases of whereeval.go; K runs exactly this function, so a return to the shadowed err breaks the correspondence
+   and the oracle). *)
+Theorem C05_reject : forall pmatch to_upper to_lower parse_time,
+  C05_reject_statement (build_where pmatch to_upper to_lower parse_time) pmatch to_upper to_lower parse_time.
+Proof. intros pm tu tl pt e H. exact (proj1 (b_expr_reject pm tu tl pt) e None H). Qed.
+Print Assumptions C05_reject.
+
+(* Both directions in one statement: the code accepts exactly the evaluable expressions, and what it accepts
+   computes the tree's meaning. *)
+Theorem C05_accepts_exactly_evaluable : forall pmatch to_upper to_lower parse_time e,
+  if all_conds_expr (evaluable_cond pmatch to_upper to_lower parse_time) e
+  then exists f, build_where pmatch to_upper to_lower parse_time (Some e) = Some (Some f) /\
+                 forall ev, revent_ok ev -> f (impl_event ev) = Ok (ev_expr pmatch to_upper to_lower parse_time e ev)
+  else build_where pmatch to_upper to_lower parse_time (Some e) = None.
+Proof. intros pm tu tl pt e. exact (build_where_decides pm tu tl pt e). Qed.
+Print Assumptions C05_accepts_exactly_evaluable.
 
 (* msg CONTAINS "zzz" AND msg LIKE "[a" *)
 Definition like_witness : expr :=
@@ -66,14 +86,16 @@ Definition like_witness : expr :=
 (* msg LIKE "[a" *)
 Definition like_witness_nil : expr := Or1 (And1 (X false (BC (Cond (Ident (B "msg") INil) (B "LIKE") (B "[a"))))).
 
-(* Refuted for path.Match (the malformed pattern "[a"): the expression is accepted and filters as its first
-   condition alone -- the event "a zzz b" passes although no pattern was matched; with the LIKE alone the
+(* What the repair bought. With the shadowed err of the earlier code (variant true: `_, err := path.Match(..)`) the
+   statement is false for path.Match (the malformed pattern "[a"): the expression is accepted and filters as its
+   first condition alone -- the event "a zzz b" passes although no pattern was matched; with the LIKE alone the
    builder returns the nil closure, whose first call panics. *)
-Theorem C05_reject_refuted :
-  ~ C05_reject_statement path_match ascii_upper ascii_lower (fun _ => None) /\
-  (exists f, build_where path_match ascii_upper ascii_lower (fun _ => None) (Some like_witness) = Some (Some f) /\
+Theorem C05_reject_shadowed_err_refuted :
+  ~ C05_reject_statement (build_where_v path_match ascii_upper ascii_lower (fun _ => None) true)
+                         path_match ascii_upper ascii_lower (fun _ => None) /\
+  (exists f, build_where_v path_match ascii_upper ascii_lower (fun _ => None) true (Some like_witness) = Some (Some f) /\
              f (Event 1 (B "a zzz b") []) = Ok true /\ f (Event 2 (B "abc") []) = Ok false) /\
-  (exists w, build_where path_match ascii_upper ascii_lower (fun _ => None) (Some like_witness_nil) = Some w /\
+  (exists w, build_where_v path_match ascii_upper ascii_lower (fun _ => None) true (Some like_witness_nil) = Some w /\
              call w (Event 1 (B "abc") []) = Panic).
 Proof.
   split; [|split].
@@ -81,31 +103,7 @@ Proof.
   - eexists. split; [reflexivity|]. split; vm_compute; reflexivity.
   - eexists. split; [reflexivity|]. vm_compute. reflexivity.
 Qed.
-Print Assumptions C05_reject_refuted.
-
-(* Partial: every other reason is refused -- unknown operand, function other than UPPER/LOWER or with other
-   than one parameter, an operator the operand does not support, an unparseable time literal -- wherever the
-   condition stands in the expression; and if the expression is accepted, every condition passed those tests. *)
-Theorem C05_reject_partial : forall pmatch to_upper to_lower parse_time e,
-  all_conds_expr (evaluable_cond_nolike pmatch to_upper to_lower parse_time) e = false ->
-  build_where pmatch to_upper to_lower parse_time (Some e) = None.
-Proof.
-  intros pm tu tl pt e H. pose proof (proj1 (b_expr_reject pm tu tl pt) e None) as R.
-  rewrite H in R. exact R.
-Qed.
-Print Assumptions C05_reject_partial.
-
-(* with well-formed LIKE patterns the full statement holds *)
-Theorem C05_reject_wellformed_like : forall pmatch to_upper to_lower parse_time e,
-  all_conds_expr (like_ok pmatch to_upper) e = true ->
-  all_conds_expr (evaluable_cond pmatch to_upper to_lower parse_time) e = false ->
-  build_where pmatch to_upper to_lower parse_time (Some e) = None.
-Proof.
-  intros pm tu tl pt e HL H. apply C05_reject_partial.
-  destruct (all_conds_expr (evaluable_cond_nolike pm tu tl pt) e) eqn:E; [|reflexivity].
-  rewrite (proj1 (evaluable_split pm tu tl pt) e HL E) in H. discriminate H.
-Qed.
-Print Assumptions C05_reject_wellformed_like.
+Print Assumptions C05_reject_shadowed_err_refuted.
 
 (* Filtering. What a reader of fiterator gets by Get/Next until EOF is the sub-list of the input events that the
    closure and the time range accept: same events, same order, none altered, duplicated or dropped. *)
@@ -148,6 +146,12 @@ Example quote_hyps_satisfiable :
   (forall v rest, lex_one (qx v ++ rest) = Some (Some TString, List.length (qx v))) /\
   all_bconds wt_cond sample = true /\ all_bconds (vq_cond qx go_unquote) sample = true.
 Proof. split; [exact qx_head|]. split; [exact qx_lex|]. split; vm_compute; reflexivity. Qed.
+
+(* the two witnesses on the code: refused *)
+Example like_witnesses_refused :
+  build_where path_match ascii_upper ascii_lower (fun _ => None) (Some like_witness) = None /\
+  build_where path_match ascii_upper ascii_lower (fun _ => None) (Some like_witness_nil) = None.
+Proof. split; vm_compute; reflexivity. Qed.
 
 Example sample_text_parses :
   parse_expr_text go_unquote (show_text qx sample) = Some (Some (to_expr sample)).
